@@ -185,6 +185,7 @@ def run_property(prop, tier, seed, rebaseline=False, only_units=None):
                     b['functions'][k] = 'verified'
                 else:
                     b['functions'][k] = 'failed-at-baseline'
+            b['assumptions'] = sorted({f'{a["kind"]} @ {a["at"]}' for a in r.get('assumptions', [])})
             json.dump(b, open(baseline_path(u), 'w'), indent=1, sort_keys=True)
             print(f'baseline written for {u}: {sum(1 for x in b["functions"].values() if x == "verified")} verified, '
                   f'{sum(1 for x in b["functions"].values() if x == "failed-at-baseline")} failed, '
@@ -356,6 +357,30 @@ def run_property(prop, tier, seed, rebaseline=False, only_units=None):
             if e.get('dropped_tail'):
                 rewrites.append({'unit': u, 'function': e['id'], 'rule': 'R11', 'not_under_contract': e['dropped_tail']})
         assumptions_scan += [{'unit': u, **a} for a in r.get('assumptions', [])]
+    not_under_contract = {}
+    try:
+        sys.path.insert(0, os.path.join(ROOT, 'weave'))
+        import rtok as _rtok
+        files = {}
+        for f in functions_under_contract:
+            files.setdefault(f['file'], set()).add((f['item'].rsplit(' :: ', 1)[-1], f['lines'][0]))
+        for rel, have in files.items():
+            sf = _rtok.SourceFile(rel, open(os.path.join('/repo', rel)).read())
+            names = []
+            for it in sf.all_items():
+                if it.kind != 'fn':
+                    continue
+                par = it.parent
+                if par is not None and par.kind == 'mod' and par.name in ('test', 'tests'):
+                    continue
+                line = sf.toks[it.lo].line
+                if any(hl == line for (_, hl) in have):
+                    continue
+                cont = par.header_norm(drop_where=True) if par is not None and par.kind in ('impl', 'trait') else '-'
+                names.append(f'{cont} :: {it.name}' if cont != '-' else it.name)
+            not_under_contract[rel] = names
+    except Exception as e:   # evidence only; never decides anything
+        not_under_contract = {'error': str(e)}
     level = cfg['level']
     cov = {
         'obligations': n_obl,
@@ -380,6 +405,7 @@ def run_property(prop, tier, seed, rebaseline=False, only_units=None):
         'bounded_checks': bounded,
         'bounded_passed': sum(1 for b in bounded if b['status'] == 'discharged'),
         'functions_under_contract': functions_under_contract,
+        'functions_of_anchored_files_not_under_contract': not_under_contract,
         'rewrites_applied': rewrites,
         'assumption_scan': assumptions_scan,
         'canaries': [{'unit': u, 'canary': k, 'failed_as_required': r['functions'].get(k, {}).get('status') == 'failed'}
